@@ -330,4 +330,59 @@ theorem expectedReqs_declared (markP : Req → Bool) (ws : List WireReq) :
     · rfl
     · simpa using ih
 
+/-! ### `ParseContentLength` on every byte string (width of `content_length_`) -/
+
+/-- value of a digit string continued from `r` -/
+def valFrom (r : Nat) (v : Bytes) : Nat := v.foldl (fun a c => a * 10 + (c.toNat - 48)) r
+def allDigits (v : Bytes) : Bool := v.all fun c => 48 ≤ c && c ≤ 57
+
+theorem valFrom_ge (r : Nat) (v : Bytes) : r ≤ valFrom r v := by
+  induction v generalizing r with
+  | nil => exact Nat.le_refl _
+  | cons c t ih =>
+    have := ih (r * 10 + (c.toNat - 48))
+    simp only [valFrom, List.foldl_cons] at this ⊢
+    omega
+
+theorem foldl_lenStep_none (v : Bytes) : v.foldl lenStep none = none := by
+  induction v with
+  | nil => rfl
+  | cons c t ih => simpa [List.foldl_cons, lenStep] using ih
+
+theorem foldl_lenStep (v : Bytes) (r : Nat) (hr : r ≤ 2 ^ 64 - 2) :
+    v.foldl lenStep (some r) = if allDigits v && decide (valFrom r v ≤ 2 ^ 64 - 2) then some (valFrom r v) else none := by
+  induction v generalizing r with
+  | nil => simp [allDigits, valFrom, hr]
+  | cons c t ih =>
+    have e1 : allDigits (c :: t) = ((48 ≤ c && c ≤ 57) && allDigits t) := rfl
+    have e2 : valFrom r (c :: t) = valFrom (r * 10 + (c.toNat - 48)) t := rfl
+    have h48 : (48 : UInt8).toNat = 48 := rfl
+    have h57 : (57 : UInt8).toNat = 57 := rfl
+    rw [List.foldl_cons, e1, e2]
+    by_cases hd : (48 ≤ c && c ≤ 57) = true
+    · have hd2 : 48 ≤ c.toNat ∧ c.toNat ≤ 57 := by
+        simp only [Bool.and_eq_true, decide_eq_true_eq, UInt8.le_iff_toNat_le] at hd
+        omega
+      have hd' : (c < 48 || c > 57) = false := by
+        simp only [Bool.or_eq_false_iff, decide_eq_false_iff_not, UInt8.lt_iff_toNat_lt, gt_iff_lt]
+        omega
+      simp only [lenStep, hd', Bool.false_eq_true, if_false, hd, Bool.true_and]
+      by_cases hbig : r > (2 ^ 64 - 2 - (c.toNat - 48)) / 10
+      · simp only [hbig, if_true, foldl_lenStep_none]
+        have h1 : r * 10 + (c.toNat - 48) > 2 ^ 64 - 2 := by omega
+        have h2 := valFrom_ge (r * 10 + (c.toNat - 48)) t
+        have : ¬ (valFrom (r * 10 + (c.toNat - 48)) t ≤ 2 ^ 64 - 2) := by omega
+        simp [this]
+      · simp only [hbig, if_false]
+        have h1 : r * 10 + (c.toNat - 48) ≤ 2 ^ 64 - 2 := by omega
+        exact ih (r * 10 + (c.toNat - 48)) h1
+    · have hd2 : c.toNat < 48 ∨ 57 < c.toNat := by
+        simp only [Bool.and_eq_true, decide_eq_true_eq, UInt8.le_iff_toNat_le] at hd
+        omega
+      have hd' : (c < 48 || c > 57) = true := by
+        simp only [Bool.or_eq_true, decide_eq_true_eq, UInt8.lt_iff_toNat_lt, gt_iff_lt]
+        omega
+      simp only [lenStep, hd', if_true, foldl_lenStep_none]
+      simp [hd]
+
 end Tbox.C12
